@@ -1,7 +1,11 @@
 """C09 — identifiers are unique; lookup and renaming stay coherent.
 
 Oracle on the real library only, after every step of a history (and on an exhaustive matrix: every identified
-record type x every kind of target identifier x {add_line, rename} on a fixed base graph per GFA version):
+record type x every kind of target identifier x {add_line, rename} on a fixed base graph per GFA version; the
+identifier of an *empty* segment - "S N 0 *" / "S N * LN:i:0", defined before or after the line that mentions it - is
+one kind of target: whether an identifier is in use may not depend on what the line that carries it holds).
+Random histories draw the length of a segment from {0, 0, 1, 4, 10, 10, 10} (profile entry seg_lengths of _hist), so
+that lines of every content, the boundary ones included, are what a duplicate / a rename / a lookup runs into:
 
   * uniqueness  g.names has no duplicate and holds only strings; no two lines of str(g) carry the same written
                 identifier (S/P: name; E/G/O/U: non-'*' id; L/C: ID:Z tag) - a defined line next to a placeholder
@@ -55,8 +59,10 @@ RULE = ("exhaustive: on a base graph per version (3 segments incl. an integer-lo
         "containment / edge, gap, path, set), every identified record type x every target identifier (fresh, fresh "
         "integer, '*', the identifier of each other line incl. same type) x {add_line, rename}, and - after lines that "
         "mention an undefined segment V and (GFA2) an undefined set item W - every identified record type x {V, W} x "
-        "{add_line, rename} (167 cells); random: "
-        "histories of 4-25 steps (60 thorough) with 35% calls aimed at identifiers in use (same type, other type, "
+        "{add_line, rename}, and - after an empty segment N (length 0) that an edge / a link mentions, defined before "
+        "resp. after that mention - every identified record type x N x {add_line, rename} (203 cells); random: "
+        "histories of 4-25 steps (60 thorough), segments of length 0 / 1 / 4 / 10 (0: 2 in 7), "
+        "with 35% calls aimed at identifiers in use (same type, other type, "
         "rename onto existing, rename onto an identifier that is only mentioned), renames to fresh and integer-looking names, forward references, removals in "
         "between. Non-trivial: at least one rename or one addition aimed at an identifier in use. Distinct by case hash.")
 
@@ -64,7 +70,8 @@ PROF = H.profile(p_fail=0.35, close=0.4, rename_star=0.08,
                  ops={"add": 45, "rm": 8, "rmline": 3, "disconnect": 3, "rename": 24, "settag": 3, "deltag": 1},
                  fails={"dup-same": 5, "dup-other": 6, "dup-link": 1, "version": 0.5, "malformed": 0.5, "header": 0,
                         "grouptag": 0.5, "rename-existing": 6, "rm-missing": 0.5, "illegal-edit": 0, "empty-line": 0,
-                        "rename-placeholder": 5})
+                        "rename-placeholder": 5},
+                 seg_lengths=[0, 0, 1, 4, 10, 10, 10])
 CASE_TIMEOUT = 60
 
 BASE = {
@@ -81,6 +88,12 @@ OWN = {"gfa1": {"S": "A", "L": "e1", "C": "e2", "P": "p1"},
 # set (placeholder of unknown type, GFA2 only)
 MENTION = {"gfa1": ["L\tB\t+\tV\t-\t*"], "gfa2": ["E\t*\tB+\tV-\t0\t5\t0\t5\t*", "U\tu9\tB W"]}
 MENTIONED = {"gfa1": ["V"], "gfa2": ["V", "W"]}
+
+
+# an empty segment N (length 0 is legal) and a line that mentions it; "-late": the mention comes first, so that the
+# segment takes the place of a placeholder
+EMPTY = {"gfa1": ["S\tN\t*\tLN:i:0", "L\tB\t-\tN\t+\t*"],
+         "gfa2": ["S\tN\t0\t*", "E\t*\tB-\tN+\t0\t5\t0\t0$\t*"]}
 
 
 def mk_line(v, rt, n):
@@ -119,6 +132,11 @@ def _cells():
             for n in MENTIONED[v]:
                 out.append((v, "rename-mentioned", rt, n))
                 out.append((v, "add-mentioned", rt, n))
+    for v in ("gfa1", "gfa2"):
+        for rt in H.IDENTIFIED[v]:
+            for when in ("empty", "empty-late"):
+                out.append((v, "add-" + when, rt, "N"))
+                out.append((v, "rename-" + when, rt, "N"))
     return out
 
 
@@ -136,6 +154,10 @@ def exhaustive_case(i, tier):
     if op.endswith("-mentioned"):
         hist += [["add", t] for t in MENTION[v]]
         labels += ["add:%s" % t[0] for t in MENTION[v]]
+    if op.endswith("-empty") or op.endswith("-empty-late"):
+        extra = EMPTY[v] if op.endswith("-empty") else EMPTY[v][::-1]
+        hist += [["add", t] for t in extra]
+        labels += ["add:%s" % t[0] for t in extra]
     if op.startswith("add"):
         hist.append(["add", mk_line(v, rt, n)]); labels.append("cell:%s:%s:%s" % (op, rt, n))
     else:
@@ -181,6 +203,14 @@ def ids_in_text(lines, v):
         virt = (H.VIRTUAL_MARK in t) or f[0] == H.UNKNOWN_RT
         d.setdefault(n, []).append((f[0], virt))
     return d
+
+
+def carrier_text(lines, v, n):
+    """the first line of the text that carries identifier n (for messages)"""
+    for t in lines:
+        if H.written_id(t, v) == n:
+            return t
+    return None
 
 
 def link_pairs(lines):
@@ -342,7 +372,8 @@ def oracle(case):
             what, rt, prt = demand
             if r[0] == "ok":
                 sig = "add-duplicate-accepted-%s" % rt if what == "add" else "rename-duplicate-accepted"
-                F.append("%s: %s line takes the identifier of a stored %s line without NotUniqueError %s" % (sig, rt, prt, where))
+                F.append("%s: %s line takes the identifier of a stored %s line (%r) without NotUniqueError %s" %
+                         (sig, rt, prt, carrier_text(pre, v, target_id), where))
             elif r[0] == "gerr" and r[1] != "NotUniqueError":
                 F.append("%s-duplicate-raises-%s: %s over %s %s" % (what, r[1], rt, prt, where))
         if onto_placeholder:
